@@ -302,7 +302,9 @@ void InterfaceMakerPythonSimple::write_function_instance(ostream &out, Interface
       parameter_list += ", &" + param_name;
       pexpr_string = "(PyObject_IsTrue(" + param_name + ")!=0)";
 
-    } else if (TypeManager::is_unsigned_longlong(type)) {
+    } else if (TypeManager::is_unsigned_longlong(type) ||
+               (TypeManager::is_long(type) && TypeManager::is_unsigned_integer(type))) {
+      // (unsigned long may be as wide as unsigned long long)
       out << "PyObject *" << param_name;
       format_specifiers += "O";
       parameter_list += ", &" + param_name;
@@ -311,7 +313,8 @@ void InterfaceMakerPythonSimple::write_function_instance(ostream &out, Interface
       pexpr_string = "PyLong_AsUnsignedLongLong(" + param_name + "_long)";
       extra_cleanup += " Py_XDECREF(" + param_name + "_long);";
 
-    } else if (TypeManager::is_longlong(type)) {
+    } else if (TypeManager::is_longlong(type) || TypeManager::is_long(type)) {
+      // (long may be as wide as long long; "i" would reject or truncate it)
       out << "PyObject *" << param_name;
       format_specifiers += "O";
       parameter_list += ", &" + param_name;
